@@ -43,6 +43,7 @@ func init() {
 		Run:       run09,
 		Shards:    16,
 		MarkCases: true,
+		WorkerEnv: []string{"GOMAXPROCS=1"},
 		Assumptions: []string{
 			"sequential consistency (Go atomics are SC; unsynchronised sharing is C08's race pass)",
 			"at most 3 threads, at most B preemptions; fairness: a thread yields after 12 consecutive polls",
@@ -659,7 +660,7 @@ func explore(c *fw.Ctx, s *scenario, cfg vsched.Config, bound int) {
 		c.Infra("scenario %q: replaying the default schedule gives a different event log (%s | %s)", s.key, e1.Diverged, e2.Diverged)
 		return
 	}
-	stats := &vsched.Stats{StateHashes: map[string]bool{}}
+	stats := &vsched.Stats{StateHashes: map[uint64]bool{}}
 	fails := map[string]*failure{}
 	complete := true
 	nontriv := int64(0)
